@@ -38,22 +38,12 @@ def get_dimensions6(o_dim, ri_dim):
     o_dim = (o_dim % 6)
     ri_dim = (ri_dim % 6)
 
+    # The batch, channel, row and column axes fill, in that order, the four
+    # positions not taken by the orientations and the real/imaginary parts
+    h_dim, w_dim = [d for d in range(6) if d != o_dim and d != ri_dim][2:]
+
     if ri_dim < o_dim:
         o_dim -= 1
-
-    if o_dim >= 3 and ri_dim >= 3:
-        h_dim = 2
-    elif o_dim >= 4 or ri_dim >= 4:
-        h_dim = 3
-    else:
-        h_dim = 4
-
-    if o_dim >= 4 and ri_dim >= 4:
-        w_dim = 3
-    elif o_dim >= 4 or ri_dim >= 4:
-        w_dim = 4
-    else:
-        w_dim = 5
 
     return o_dim, ri_dim, h_dim, w_dim
 
